@@ -240,7 +240,65 @@ def rule_frames(ctx):
     ctx.covered('R09.6', 'MERCURIUS coordinate-frame typestate over all step/synchronise sequences up to length 4, safe_mode 0/1', n, floor=60, samples=samples)
 
 
+def rule_python_snapshot_pickup(ctx):
+    """R09.7: Simulationarchive.getSimulation hands back a snapshot that may be in the unsynchronised state. The
+    keep_unsynchronized switches decide whether synchronize()/integrate() preserve the cached mid-step state; they have
+    to be set before the first call that synchronises, in every branch, and both integrators that honour the switch
+    (WHFast, SABA) have to receive it."""
+    import ast
+    from .. import pyfront
+    db = pyfront.pydb()
+    path = [p for p in db.files if p.endswith('simulationarchive.py')]
+    anchor(path, 'rebound/simulationarchive.py')
+    tree = db.files[path[0]]
+    fn = None
+    for node in ast.walk(tree):
+        if isinstance(node, ast.FunctionDef) and node.name == 'getSimulation':
+            fn = node
+    anchor(fn is not None, 'Simulationarchive.getSimulation')
+    n = 0
+    samples = []
+
+    def blocks(stmts):
+        yield stmts
+        for st in stmts:
+            for fld in ('body', 'orelse', 'finalbody'):
+                sub = getattr(st, fld, None)
+                if isinstance(sub, list) and sub and isinstance(sub[0], ast.stmt):
+                    yield from blocks(sub)
+
+    SYNC = {'synchronize', 'integrate', 'step', 'steps'}
+    for blk in blocks(fn.body):
+        setters = {}
+        first_sync = None
+        for i, st in enumerate(blk):
+            if isinstance(st, ast.Assign):
+                for t in st.targets:
+                    if isinstance(t, ast.Attribute) and t.attr == 'keep_unsynchronized':
+                        setters.setdefault(ast.unparse(t.value), i)
+            for c in ast.walk(st) if not isinstance(st, (ast.If, ast.For, ast.While, ast.With, ast.Try)) else []:
+                if isinstance(c, ast.Call) and isinstance(c.func, ast.Attribute) and c.func.attr in SYNC and first_sync is None:
+                    first_sync = (i, c.func.attr, st.lineno)
+        if first_sync is None and not setters:
+            continue
+        if first_sync is None:
+            continue
+        n += 1
+        where = 'rebound/simulationarchive.py:%s Simulationarchive.getSimulation' % first_sync[2]
+        owners = {k.split('.')[-1] for k in setters}
+        for want in ('ri_whfast', 'ri_saba'):
+            if want not in owners:
+                ctx.report('R09.7', 'getSimulation:%s:missing' % want, where, 'the branch calls %s() without setting %s.keep_unsynchronized: the snapshot is synchronised for good and the continued run is not bit-identical' % (first_sync[1], want))
+        for k, i in setters.items():
+            if i > first_sync[0]:
+                ctx.report('R09.7', 'getSimulation:%s:order' % k.split('.')[-1], where,
+                           '%s.keep_unsynchronized is assigned after %s() has already run: the synchronisation overwrites the cached mid-step state before the switch takes effect' % (k, first_sync[1]))
+        samples.append('%s: %s() after keep_unsynchronized of %s' % (where, first_sync[1], sorted(owners)))
+    ctx.covered('R09.7', 'Python getSimulation: keep_unsynchronized of WHFast and SABA set before the first synchronising call in every branch', n, floor=2, samples=samples)
+
+
 def run(ctx):
+    rule_python_snapshot_pickup(ctx)
     rule_frames(ctx)
     rule_equivalence(ctx)
     rule_keep_unsynchronized(ctx)
